@@ -5,6 +5,17 @@ sys.path.insert(0, '/verif/lib')
 import props
 
 LEVEL = {
+ "C04": ("Arith.tla contains the exact integer model of the sixteen 8-bit check rules (correction table typed independently, fold with clamp, first-minimum A-Min*, saturating lookup, partial hard limit) and the "
+         "property-level clauses (one message per neighbour, sign parity of the others, magnitude bound, tracking of the real-valued rule within accumulated table rounding B(kind,d)); TLC proves range, sign and magnitude "
+         "clauses on the model by enumeration over a lattice (MC_Arith). The real send_check_messages of all 24 types, called on ONE long-lived arithmetic object per type, is bound by trace validation: TLC "
+         "evaluates the clauses on every recorded call; floating-point accuracy is judged by TLC against tolerance formulas in Arith.tla using references and distances (centibels) from the harness oracle.",
+         "TLC + Json/IOUtils; harness oracle: stable pairwise box-plus in f64, real-valued min*-approx/A-Min*; tolerances follow K*d*eps*(1+e^|y|) inside the working range.",
+         "TLA+ model checking of the 8-bit rule models + trace validation of recorded arithmetic calls", "5 C04"),
+ "C05": ("Arith.tla gives exact integer definitions of the 8-bit quantiser, variable rule (Jones / degree-one clip, symmetric saturation) and layered rule; MC_Arith proves range, accumulator bound and "
+         "layered = flooding-on-extrinsics on a lattice. The statement fixes exact values, so equality with the model IS the property-level predicate: every recorded call of input_llr_quantize, send_var_messages "
+         "(degrees 1..200) and update_check_messages_and_vars of the 16 8-bit types is recomputed by TLC; the layered rule of all 24 types is compared with the type's own flooding rule on the extrinsics; float sums under a relative tolerance. Harness built with overflow checks: any wrap is a panic event, which TLC rejects.",
+         "TLC + Json/IOUtils; f64 reference sums for float types from the harness.",
+         "TLA+ exact integer model + trace validation of recorded arithmetic calls", "5 C05"),
  "C01": ("BP.tla specifies both schedules generically over an arithmetic and DecodeRel.tla the arithmetic-independent relation C01Rel between input sign pattern, limit and result. TLC checks C01Rel on the "
          "model's own results for both schedules with exact integer min-sum on five Tanner graphs x every LLR vector over a 4/5-value domain x limits 0..2/3. The real code is bound by trace validation: "
          "every one of the 36 factory-built decoders is run on seeded matrices/LLR classes and TLC evaluates C01Rel on every recorded result (the relation needs no arithmetic model, so it applies to the float decoders too).",
